@@ -6,7 +6,7 @@ operation - exhaustively for the containment / comparison / query family, one
 representative pair per state epoch for the long operator runs - and after each one the
 operands are compared with a pristine copy.  Plus every invalid-argument case of the
 in-place transformations and invalid-operand calls that raise naturally."""
-from copy import copy
+from copy import copy, deepcopy
 from decimal import Decimal
 from fractions import Fraction as F
 
@@ -26,7 +26,7 @@ RULE = (
     "(reduced mode, for the long operator runs; cross-validated against full mode on tri&tri in the thorough tier): "
     "InjectedInterrupt(BaseException) raised at event k on fresh operands, then every operand must denote its original region "
     "with its original orientation and answer area/box/orientation/membership like a pristine copy. Also: invalid operands "
-    "(A|3, A&None, A=='x', J==3, 5 in A ...) and 15 invalid-argument calls of move/scale/rotate on Simple/Connected/Disjoint "
+    "(A|3, A&None, A=='x', J==3, 5 in A ...) and every one of 9 bad values (text, numeric text, bytes, None, Decimal, list, triple, complex, object) in every argument position of move/scale/rotate (122 calls) on shapes and curves of every kind, numeric type and of MIXED numeric types across curves (Simple/Connected/Disjoint) "
     "shapes must leave the full representation identical. non-trivial = injection point inside the operation (fired); "
     "distinct = (operation, event index)."
 )
@@ -201,7 +201,8 @@ def cases(tier, seed):
         specs.append({"id": "crash-xval:tri & tri", "op": "tri & tri", "mode": "xval", "cost": 100})
         specs.append({"id": "crash-xval:S | H", "op": "S | H", "mode": "xval", "cost": 100})
     specs.append({"id": "invalid-operands", "invalid_operands": True})
-    specs.append({"id": "invalid-transform-args", "invalid_args": True})
+    for k in range(len(TARGETS)):
+        specs.append({"id": "invalid-transform-args:%d" % k, "invalid_args": True, "target": k, "cost": 20})
     return specs
 
 
@@ -233,25 +234,56 @@ def invalid_operand_calls():
     ]
 
 
-INVALID_ARGS = [
-    ("move('a')", lambda s: s.move("a")),
-    ("move(1)", lambda s: s.move(1)),
-    ("move(1, None)", lambda s: s.move(1, None)),
-    ("move((1,2,3))", lambda s: s.move((1, 2, 3))),
-    ("move(1, 'b')", lambda s: s.move(1, "b")),
-    ("scale('a', 1)", lambda s: s.scale("a", 1)),
-    ("scale(1, 'b')", lambda s: s.scale(1, "b")),
-    ("scale(2, '3')", lambda s: s.scale(2, "3")),
-    ("scale(2, Decimal(3))", lambda s: s.scale(2, Decimal(3))),
-    ("scale(None, 1)", lambda s: s.scale(None, 1)),
-    ("scale(2, None)", lambda s: s.scale(2, None)),
-    ("scale(2, [3])", lambda s: s.scale(2, [3])),
-    ("rotate('x')", lambda s: s.rotate("x")),
-    ("rotate(None)", lambda s: s.rotate(None)),
-    ("rotate([1])", lambda s: s.rotate([1])),
-    ("rotate('90', degrees=True)", lambda s: s.rotate("90", degrees=True)),
+BAD_VALUES = [
+    ("'a'", "a"),
+    ("'3'", "3"),
+    ("None", None),
+    ("Decimal(3)", Decimal(3)),
+    ("[3]", [3]),
+    ("(1,2,3)", (1, 2, 3)),
+    ("1+2j", complex(1, 2)),
+    ("object", object()),
+    ("b'2'", b"2"),
 ]
-TARGETS = [["L", "P.triA#int"], ["L", "P.triA#float"], ["PC", "hollow", "int"], ["PC", "two", "frac"], ["L", "Q.c8"], ["PC", "xtwo", "float"]]
+
+
+def _invalid_args():
+    """Every bad value in every argument position of move / scale / rotate (the other position
+    holds a valid number), plus the arity errors."""
+    out = [("move(1)", lambda s: s.move(1)), ("move((1,2,3))", lambda s: s.move((1, 2, 3))), ("move()", lambda s: s.move()), ("scale(2)", lambda s: s.scale(2)), ("rotate()", lambda s: s.rotate())]
+    for nm, v in BAD_VALUES:
+        out += [
+            ("move(%s)" % nm, lambda s, v=v: s.move(v)),
+            ("move(1, %s)" % nm, lambda s, v=v: s.move(1, v)),
+            ("move(%s, 1)" % nm, lambda s, v=v: s.move(v, 1)),
+            ("move((1, %s))" % nm, lambda s, v=v: s.move((1, v))),
+            ("move((%s, 1))" % nm, lambda s, v=v: s.move((v, 1))),
+            ("move((1/2, %s))" % nm, lambda s, v=v: s.move((F(1, 2), v))),
+            ("move((0.5, %s))" % nm, lambda s, v=v: s.move((0.5, v))),
+            ("scale(%s, 1)" % nm, lambda s, v=v: s.scale(v, 1)),
+            ("scale(2, %s)" % nm, lambda s, v=v: s.scale(2, v)),
+            ("scale(%s, %s)" % (nm, nm), lambda s, v=v: s.scale(v, v)),
+            ("scale(xscale=2, yscale=%s)" % nm, lambda s, v=v: s.scale(xscale=2, yscale=v)),
+            ("rotate(%s)" % nm, lambda s, v=v: s.rotate(v)),
+            ("rotate(%s, degrees=True)" % nm, lambda s, v=v: s.rotate(v, degrees=True)),
+        ]
+    return out
+
+
+INVALID_ARGS = _invalid_args()
+# targets: every kind, every numeric type, and compound shapes whose curves have DIFFERENT
+# numeric types (a rational polygon with a float curved hole / a far float component)
+TARGETS = [
+    ["L", "P.triA#int"],
+    ["L", "P.triA#float"],
+    ["PC", "hollow", "int"],
+    ["PC", "two", "frac"],
+    ["L", "Q.c8"],
+    ["PC", "xtwo", "float"],
+    ["-", ["L", "P.big#int"], ["L", "Q.c8s"]],
+    ["|", ["L", "Q.c8far"], ["L", "P.sqA#frac"]],
+    ["|", ["L", "P.sqA#frac"], ["L", "Q.c8far"]],
+]
 
 
 def run_case(spec):
@@ -260,10 +292,11 @@ def run_case(spec):
     viols, hist, nontrivial = [], {}, []
     evals = 0
     if spec.get("invalid_args"):
-        for te in TARGETS:
+        for te in (TARGETS if spec.get("target") is None else [TARGETS[spec["target"]]]):
+            proto = al.lib_eval(te)
             for nm, fn in INVALID_ARGS:
                 for target_kind in ("shape", "curve"):
-                    S = al.lib_eval(te)
+                    S = deepcopy(proto)
                     T = S if target_kind == "shape" else S.jordans[0]
                     before = rg.rep_sig(S)
                     st, val = call_limited(lambda: fn(T), 30)
@@ -275,7 +308,7 @@ def run_case(spec):
                     hist["rejected:" + type(val).__name__ if st == "raise" else "hang"] = hist.get("rejected:" + type(val).__name__ if st == "raise" else "hang", 0) + 1
                     nontrivial.append(cid)
                     if rg.rep_sig(S) != before:
-                        viols.append({"case_id": cid + " :: changed", "what": "the call raised %s but the shape was modified" % (exc_str(val) if st == "raise" else st), "replay": {"id": "replay:invalid-args", "invalid_args": True}})
+                        viols.append({"case_id": cid + " :: changed", "what": "the call raised %s but the shape was modified" % (exc_str(val) if st == "raise" else st), "replay": {"id": "replay:invalid-args", "invalid_args": True, "target": spec.get("target")}})
         return {"violations": viols, "evals": evals, "nontrivial": nontrivial, "hist": hist, "sample": {"calls": [n for n, _ in INVALID_ARGS][:5], "targets": [al.expr_id(t) for t in TARGETS]}}
     if spec.get("invalid_operands"):
         for ae in (["L", "P.sqA#int"], ["PC", "hollow", "int"], ["PC", "two", "float"], ["L", "Q.c8"]):
